@@ -9,6 +9,9 @@ WORK = os.environ.get('VERIF_WORK', os.path.join(VERIF, 'work'))
 SPEC = os.path.join(VERIF, 'spec')
 HARNESS = os.path.join(VERIF, 'harness')
 EVIDENCE = os.path.join(VERIF, 'evidence')
+if os.environ.get('LCDB_REPO') and os.path.realpath(os.environ['LCDB_REPO']) != '/repo':
+    # runs against a scratch worktree (seeded changes, mutants) never touch the committed evidence of the unchanged tree
+    EVIDENCE = os.path.join(VERIF, 'work', 'evidence_other_tree')
 TLA_JAR = '/opt/veriftools/tla/tla2tools.jar'
 TLA_CP = TLA_JAR + ':/opt/veriftools/tla/CommunityModules-deps.jar'
 NCPU = 16
